@@ -38,6 +38,9 @@ def tu_for(tracking):
     for op, (expr, extra) in OPS.items():
         for a, m in AM:
             s += tu_root(rname(op, a, m, tracking), INPUT_TYPES[(tracking, 'lf_crlf')], expr % (a, m), extra)
+    if tracking == 'eager':
+        for pol in POLICIES[1:]:
+            s += tu_root('rsopen_%s_A1M0_e' % pol, INPUT_TYPES[('eager', pol)], OPS['rsopen'][0] % (1, 0), OPS['rsopen'][1])
     return s
 
 
@@ -53,10 +56,23 @@ const char* g_p0;      /* ghost: cursor at entry */
 #define P0 g_p0
 static inline size_t vf_eol_len_lf_crlf(const char* p, size_t avail)
 { if (avail == 0) return 0; if (p[0] == '\\n') return 1; return (avail >= 2 && p[0] == '\\r' && p[1] == '\\n') ? 2 : 0; }
+/* documented line endings of the other policies: 1 lf, 2 cr, 3 crlf, 4 cr_crlf */
+static inline size_t vf_eol_len_pol(const char* p, size_t avail, int policy)
+{
+  if (avail == 0) return 0;
+  switch (policy) {
+    case 0: return vf_eol_len_lf_crlf(p, avail);
+    case 1: return p[0] == '\\n' ? 1 : 0;
+    case 2: return p[0] == '\\r' ? 1 : 0;
+    case 3: return (avail >= 2 && p[0] == '\\r' && p[1] == '\\n') ? 2 : 0;
+    default: if (p[0] != '\\r') return 0; return (avail >= 2 && p[1] == '\\n') ? 2 : 1;
+  }
+}
 '''
+POLICIES = ['lf_crlf', 'lf', 'cr', 'crlf', 'cr_crlf']
 
 
-def open_contract(tr):
+def open_contract(tr, pol='lf_crlf'):
     c = Contract(
         R('VALID_PRE(in) && __CPROVER_w_ok(marker_size, sizeof(size_t)) && g_p0 == CUR(in) && g_i == 1 && vf_exc.pending == 0', 'pre'),
         Clause('assigns', 'IT_FIELDS(in), *marker_size, g_i'),
@@ -65,7 +81,7 @@ def open_contract(tr):
         E('!RET ==> ITER_UNCHANGED(in)', 'RC-REWIND', ('C02',)),
         E('RET ==> (*marker_size >= 2 && *marker_size <= AVAIL_OLD(in) && P0[0] == OPENC && P0[*marker_size - 1] == OPENC'
           ' && ((g_k >= 1 && g_k < *marker_size - 1) ==> P0[g_k] == MARKC))', 'OPEN-IS-A-LONG-BRACKET-OF-LEVEL-N', ('C16',)),
-        E('RET ==> CONSUMED(in) == *marker_size + vf_eol_len_lf_crlf(P0 + *marker_size, AVAIL_OLD(in) - *marker_size)', 'OPEN-SKIPS-ONE-IMMEDIATE-LINE-ENDING', ('C16',)),
+        E('RET ==> CONSUMED(in) == *marker_size + vf_eol_len_pol(P0 + *marker_size, AVAIL_OLD(in) - *marker_size, %d)' % POLICIES.index(pol), 'OPEN-SKIPS-ONE-IMMEDIATE-LINE-ENDING-OF-THE-INPUTS-EOL-POLICY', ('C16',)),
         E('!RET ==> (AVAIL_OLD(in) == 0 || P0[0] != OPENC || (g_i >= 1 && g_i <= AVAIL_OLD(in) && ((g_k >= 1 && g_k < g_i) ==> P0[g_k] == MARKC)'
           ' && (g_i == AVAIL_OLD(in) || (P0[g_i] != MARKC && P0[g_i] != OPENC))))', 'OPEN-REJECTS-ONLY-NON-BRACKETS', ('C16',)),
         E('!RET || vf_canary', 'canary_ok'), E('RET || vf_canary', 'canary_fail'))
@@ -141,6 +157,16 @@ def jobs(tier):
                     expect_fail_canary=canaries(), desc='raw_string_open<[,=>::match on memory_input<%s>' % tr)
             j.ghost = {(r'internal::raw_string_open<.*>::match<', 1): '{ g_i = g_i + 1; }'}
             out.append(j)
+            if tr == 'eager' and a == 1 and m == 0:
+                for pol in POLICIES[1:]:
+                    nm = 'rsopen_%s_A1M0_e' % pol
+                    j = Job(nm, grp, nm, open_contract(tr, pol), ('C16', 'C02', 'C03', 'C06'),
+                            prelude=prelude(tr) + PRE + lp + g_pos.PRE_STUB, stubs=[],
+                            loops={(r'internal::raw_string_open<.*>::match<', 1): OPEN_LOOP},
+                            harness=input_harness('vf_' + INPUT_TYPES[('eager', pol)], tr, 'w_ret = $ENTRY(&in, &ms)', extra_decl='  size_t ms;\n', pre_call='  g_p0 = CUR(&in); g_i = 1; vf_exc.pending = 0;\n'),
+                            expect_fail_canary=canaries(), desc='raw_string_open<[,=>::match on memory_input<eager, eol::%s>' % pol)
+                    j.ghost = {(r'internal::raw_string_open<.*>::match<', 1): '{ g_i = g_i + 1; }'}
+                    out.append(j)
             # (b) close
             j = Job(rname('rsclose', a, m, tr), grp, rname('rsclose', a, m, tr), close_contract(tr), ('C16', 'C02', 'C03'),
                     prelude=prelude(tr) + PRE + lp, loops={(r'internal::at_raw_string_close<.*>::match<', 1): CLOSE_LOOP},
@@ -164,7 +190,18 @@ def jobs(tier):
                     post = [E('!vf_exc.pending ==> (RET == (g_last == 0 && g_ok[0]))', 'UNTIL-STOPS-AT-FIRST-POSITION-WHERE-COND-HOLDS', ('C16',)),
                             E('(!vf_exc.pending && !RET) ==> (g_last == 1 && !g_ok[1])', 'UNTIL-FAILS-ONLY-WHEN-CONTENT-FAILS', ('C16',)),
                             E('(!vf_exc.pending && RET) ==> OFF(CUR(in)) == g_pos', 'UNTIL-CONSUMED', ('C16',))]
-                    loops = {(r'internal::raw_string_until<.*>::match<', 1): until_loop()}
+                    # C11: the content loop of raw_string< O, M, C, Contents... > as the analysis models it: the traits of the rule with one
+                    # content rule are read from the real headers; the content rule is R<0> there and R<1> in this job
+                    trc = traits_of(NAME + '_contents', {'rsc': "raw_string< '[', '=', ']', R<0> >"}, includes=('tao/pegtl/contrib/raw_string.hpp',))['rsc']
+                    back = None if trc is None or trc['back'] is None else trc['back'].replace('g_c[0]', 'g_c[1]')
+                    if trc is not None and back != '0':
+                        cl = '!g_re[1]' if back is None else '(%s) ==> !g_re[1]' % back
+                        post.append(E(cl, 'ANALYZE-TRAIT-REPETITION-MAKES-PROGRESS' if back is not None else 'ANALYZE-TRAIT-WITHOUT-BACK-REFERENCE-NO-REPETITION-IN-PLACE', ('C11',)))
+                        inv = '!g_re[1] && (g_ncalls[1] > 0 ==> g_lp[1] < g_pos)'
+                        c11inv = '/*@IF C11@*/ && %s/*@FI@*/' % (inv if back is None else '((%s) ==> (%s))' % (back, inv))
+                    else:
+                        c11inv = ''
+                    loops = {(r'internal::raw_string_until<.*>::match<', 1): until_loop(c11inv)}
                     ghost = {}
                     stubs = [(r'^bool vf::R<\d+>::match<', ms_stub(spec, (0,)))]
                 con = Contract(comb_requires(), R('__CPROVER_r_ok(marker_size, sizeof(size_t)) && *marker_size == g_ms', 'ms-pre'), comb_assigns())
@@ -173,7 +210,7 @@ def jobs(tier):
                 for c in post:
                     con.add(c)
                 con.add(E('vf_canary', 'canary_exit'))
-                j = Job(rname(op, a, m, tr), grp, rname(op, a, m, tr), con, ('C16', 'C02'), stubs=stubs, loops=loops,
+                j = Job(rname(op, a, m, tr), grp, rname(op, a, m, tr), con, ('C16', 'C02') + (('C11',) if op == 'rsuntil2' else ()), stubs=stubs, loops=loops,
                         prelude=comb_prelude(tr) + 'size_t g_ms;\n' + g_pos.PRE_STUB,
                         harness=comb_harness(it, tr, 'w_ret = $ENTRY(&in, &ms)').replace('int main(void)\n{', 'int main(void)\n{\n  size_t ms; g_ms = ms;'),
                         expect_fail_canary=('canary_exit',), desc='%s on memory_input<%s>' % (OPS[op][0] % (a, m), tr))
